@@ -273,14 +273,50 @@ def chain (af : AsFound) (fs : Fs) (lps : List Path) : Path → List (Bool × Pa
           | .loaded p syn => if syn = .css then [] else chain af fs lps p rest
           | .cantFind => [])
 
+/-- State of `import_like_node`'s stylesheet cache (visitor.rs:900, 918–922): a file is read (and
+    parsed) the first two times it is loaded, and served from `import_cache` afterwards.  The
+    search itself (`find_import`) runs every time. -/
+structure Cache where
+  seen   : List Path
+  cached : List Path
+  deriving Repr, Inhabited
+
+def Cache.empty : Cache := ⟨[], []⟩
+
+/-- `import_like_node` with its cache: the same search as `load`; the read is dropped when the
+    resolved file is already cached. -/
+def loadC (af : AsFound) (fs : Fs) (lps : List Path) (st : Cache) (importer url : Path) (forImport : Bool) :
+    (LoadResult × List Call) × Cache :=
+  let r := resolveLocs fs (locations af importer url lps forImport)
+  match r.1 with
+  | some p =>
+    if st.cached.contains p then ((.loaded p (syntaxFor p), r.2.map .probe), st)
+    else ((.loaded p (syntaxFor p), r.2.map .probe ++ [.read p]),
+          if st.seen.contains p then { st with cached := p :: st.cached } else { st with seen := p :: st.seen })
+  | none => ((.cantFind, r.2.map .probe), st)
+
+/-- A chain of nested loads threading the cache. -/
+def chainC (af : AsFound) (fs : Fs) (lps : List Path) :
+    Cache → Path → List (Bool × Path) → List (LoadResult × List Call) × Cache
+  | st, _, [] => ([], st)
+  | st, importer, (fi, url) :: rest =>
+    let r := loadC af fs lps st importer url fi
+    match r.1.1 with
+    | .loaded p syn =>
+      if syn = .css then ([r.1], r.2)
+      else
+        let rs := chainC af fs lps r.2 p rest
+        (r.1 :: rs.1, rs.2)
+    | .cantFind => ([r.1], r.2)
+
 /-- Several chains started one after the other from the same file (`@import "a"; @import "b";`):
     each starts again relative to that file; a failed load ends the compilation. -/
 def chains (af : AsFound) (fs : Fs) (lps : List Path) (importer : Path) :
-    List (List (Bool × Path)) → List (LoadResult × List Call)
-  | [] => []
-  | c :: cs =>
-    let r := chain af fs lps importer c
-    r ++ (if r.any (fun x => x.1 == .cantFind) then [] else chains af fs lps importer cs)
+    Cache → List (List (Bool × Path)) → List (LoadResult × List Call)
+  | _, [] => []
+  | st, c :: cs =>
+    let r := chainC af fs lps st importer c
+    r.1 ++ (if r.1.any (fun x => x.1 == .cantFind) then [] else chains af fs lps importer r.2 cs)
 
 /-! ### the documented search, group by group (dart-sass `_exactlyOne`) -/
 
@@ -363,7 +399,8 @@ def importCalls (af : AsFound) (fs : Fs) (importer : Path) (lps : List Path)
 
 /-- `res` / `calls` is what was observed for one load.  The property (`af = .spec`): the outcome
     is the one the documented search gives, every existence test is on a candidate of that search,
-    and the only read is of the resolved file.  With another `af` the same predicate is relative to
+    and the only read (at most one: a cached stylesheet is not read again) is of the resolved file.
+    With another `af` the same predicate is relative to
     that variant of the search; the check uses it only to attribute a failure of the `.spec`
     predicate to a known as-found switch. -/
 def checkLoad (af : AsFound) (fs : Fs) (importer url : Path) (lps : List Path) (forImport : Bool)
@@ -375,7 +412,7 @@ def checkLoad (af : AsFound) (fs : Fs) (importer url : Path) (lps : List Path) (
     | .probe p => cands.contains p
     | .read p => decide (res = some p)) &&
   decide ((calls.filter (fun c => match c with | .read _ => true | _ => false)).length
-            = (if res.isSome then 1 else 0))
+            ≤ (if res.isSome then 1 else 0))
 
 /-! ### driver entry points -/
 open Grass.Proto
@@ -513,7 +550,7 @@ def handle : List String → String
       | some importer, some lps, some files, some dirs, some plan =>
         if importer.isEmpty then "unsupported" else
         let fs := fsOf files dirs
-        let rs := chains af fs lps importer plan
+        let rs := chains af fs lps importer .empty plan
         let info := chainsInfo af fs lps importer plan
         "ok " ++ ";".intercalate (rs.map (fun r => resultStr r.1 ++ "|" ++ callsStr r.2)) ++
           " # " ++ ";".intercalate info
